@@ -18,6 +18,14 @@ SCENARIOS = {
     12: "wcsnorm_s NFD, 12 combining marks (reorder buffer malloc)", 13: "wcsnorm_s NFD, 17 marks (realloc)", 14: "wcsnorm_s NFD, 23 marks (two reallocs)",
     15: "wcsnorm_s NFC, 12 combining marks (compose)", 16: "wcsnorm_s NFC, 23 marks",
     17: "wcsicmp_s (two fold buffers)", 18: "wcsnatcasecmp_s (two fold buffers)",
+    19: "sprintf_s(\"%-12ls\") into 8 bytes: the trailing blanks do not fit (scratch live)", 20: "sprintf_s(\"%12ls\") into 8 bytes: the leading blanks do not fit",
+    21: "sprintf_s(\"%ls\") into 4 bytes: the text does not fit", 22: "sprintf_s with three %ls directives (width, left-justified, precision)",
+    23: "snprintf_s(\"%-9ls|\") truncating",
+    24: "sprintf_s(\"%Lf x\") into 4 bytes", 25: "sprintf_s(\"%Le y\") into 4 bytes", 26: "sprintf_s(\"%La z\") into 4 bytes", 27: "sprintf_s(\"%a w\") into 4 bytes",
+    28: "wcsnorm_s NFD of 130 precomposed characters into 140 elements (heap scratch, no space)",
+    29: "wcsnorm_s NFD, 23 marks into 20 elements (no space)", 30: "wcsnorm_s NFC, 23 marks into 20 elements (no space)",
+    31: "wcsicmp_s, the second operand's fold does not fit", 32: "wcsicmp_s, the first operand's fold does not fit",
+    33: "wcsnatcasecmp_s, the second operand's fold does not fit", 34: "wcsnatcasecmp_s, the first operand's fold does not fit",
 }
 
 
